@@ -1,5 +1,5 @@
 (* Property C17, event level, comment insertion: everything put together.  A block comment inserted
-   directly after a word token and before a blank token, outside braces, leaves the event stream
+   directly after a word or number token and before a blank token, outside braces, leaves the event stream
    of a document unchanged (positions aside). *)
 From CL Require Import Base.StrLemmas Model.Lexer Model.PText Model.CommentMask Model.Parser Model.Edits
   Proofs.LexerProofs Proofs.MaskProofs Proofs.EditProofs Proofs.EditParserProofs Proofs.EditLink
@@ -42,7 +42,7 @@ Section InsAll.
     parse_frontmatter cfg (a ++ b) = None -> parse_frontmatter cfg (a ++ block_comment_text c ++ b) = None ->
     lex_at U a 0 = Some (p ++ [wd]) -> lex_at U b (blen a) = Some (ws :: tb') ->
     lex_at U (a ++ b) 0 = Some ((p ++ [wd]) ++ ws :: tb') ->
-    kind wd = KWord -> kind ws = KWs -> mode_after MOut p = MOut ->
+    swt (kind wd) = true -> kind ws = KWs -> mode_after MOut p = MOut ->
     OR same_events (events U cfg (a ++ b)) (events U cfg (a ++ block_comment_text c ++ b)).
   Proof. apply (mid_comment_events U cfg blocks_jsim special_breaks eol_breaks). Qed.
 
@@ -51,7 +51,7 @@ Section InsAll.
     parse_frontmatter cfg s = Some fm -> cook_text fm = a ++ b -> a ++ b <> [] ->
     lex_at U a (cook_off fm) = Some (p ++ [wd]) -> lex_at U b (cook_off fm + blen a) = Some (ws :: tb') ->
     lex_at U (a ++ b) (cook_off fm) = Some ((p ++ [wd]) ++ ws :: tb') ->
-    kind wd = KWord -> kind ws = KWs -> mode_after MOut p = MOut ->
+    swt (kind wd) = true -> kind ws = KWs -> mode_after MOut p = MOut ->
     OR same_events (events U cfg s)
                    (events U cfg (take_bytes s (cook_off fm) ++ a ++ block_comment_text c ++ b)).
   Proof. apply (mid_comment_events_fm U cfg blocks_jsim special_breaks eol_breaks). Qed.
